@@ -55,6 +55,9 @@ def gen_tree(rng, excl_dirs, excl_exts, depth=0):
             r = rng.random()
             if r < 0.25:
                 name = rng.choice([d for d in excl_dirs if "*" not in d] + ["pkg.egg-info"])
+            elif r < 0.33:
+                # the same names in another letter case are ordinary directories (the comparison is exact)
+                name = rng.choice(["Build", "DIST", "Venv", "Node_Modules", "__PYCACHE__", "Pkg.Egg-Info", ".Git", "BUILD"])
             else:
                 name = rng.choice(PLAIN_DIRS)
             if name in used:
@@ -68,7 +71,14 @@ def gen_forms(rng, tree):
     names = ["gen", "sub", "lib", "deep", "docs", "checks", ".hidden", "generic", "a.b", "src"]
     forms = []
     for _ in range(rng.choice([0, 1, 1, 2, 3])):
-        k = rng.choice(["dir", "dir", "anydir", "anydir", "ext", "ext", "exact", "globdir", "globdir"])
+        k = rng.choice(["dir", "dir", "anydir", "anydir", "ext", "ext", "exact", "globdir", "globdir", "dirpath", "dirpath"])
+        if k == "dirpath":
+            # a directory given by its path from the root (two components), with whatever lies below it at any depth
+            two = [[n["d"], m["d"]] for n in tree if "d" in n for m in n["k"] if "d" in m]
+            if not two:
+                continue
+            forms.append({"form": "dirpath", "p": rng.choice(two)})
+            continue
         if k in ("dir", "anydir"):
             forms.append({"form": k, "n": rng.choice(names)})
         elif k == "globdir":
